@@ -67,5 +67,10 @@ NoDanglingKey == fin => LastTok # "key"
 
 \* ---- rendering: token texts; the harness joins them with the layout's blank runs and inserts , and :
 TokText(t) == IF t[1] = "key" THEN KeyCat[t[2]] ELSE IF t[1] = "scalar" THEN ScalarCat[t[2]] ELSE t[1]
+\* ---- size: the documents above are small; the same catalogue also fills three large shapes - a flat array of n
+\* scalars, an object of n members, a matrix of about n scalars - for the sizes at which an implementation may switch
+\* its bookkeeping or meet a limit (the harness builds them from the catalogue, cycling through the scalars)
+ScaledSizes == {15, 16, 17, 63, 64, 65, 255, 256, 257, 999, 1000, 1001, 1023, 1024, 1025, 4096, 20000}
+EmitSizes == (out = <<>> /\ ~fin) => PrintT(ToJson([sizes |-> ScaledSizes]))
 Emit == fin => PrintT(ToJson([toks |-> [i \in 1..Len(out) |-> [k |-> out[i][1], t |-> TokText(out[i])]]]))
 ===============================================================================
